@@ -1,9 +1,10 @@
-import SqlProofs.DelimR.Inv
+import SqlProofs.DelimChild.Reindent.Inv
 /-!
-# SqlProofs.DelimR.Bridge — `delimSafeL → ListInv .w` and `ListInv .t → delimShapeL`
+# SqlProofs.DelimChild.Reindent.Bridge — `delimSafeL → ListInv .w` and `ListInv .t → delimShapeL`
 -/
 namespace Sql
-namespace DC
+namespace DCR
+open DC
 
 variable {u : Text → Text}
 
@@ -134,5 +135,5 @@ theorem delimShapeL_of_listInv {ph : Ph} : (ks : List Node) → ListInv u ph ks 
     exact ⟨delimShape_of_nodeInv k h.1, delimShapeL_of_listInv ks h.2⟩
 end
 
-end DC
+end DCR
 end Sql
